@@ -15,6 +15,7 @@ import (
 	"github.com/valyala/fasthttp"
 
 	"h2v/fakeconn"
+	"h2v/hpackref"
 	"h2v/rt"
 	"h2v/vf"
 	"h2v/wire"
@@ -341,8 +342,18 @@ func c12Scenario(r *vf.Run, t *testing.T, id string, rng *rand.Rand) {
 				e.P.Write(rt.SettingsFrame([]wire.Setting{{ID: 2, Val: 7}, {ID: 4, Val: 1 << 31}, {ID: 5, Val: 100}, {ID: 5, Val: 1 << 24}}[rng.Intn(4)]))
 			case 10:
 				out := wire.Frame(nil, wire.THeaders, 0, anyStream, []byte{0x88}, -1)
-				for i := 0; i < 500+rng.Intn(3000); i++ {
-					out = append(out, wire.Frame(nil, wire.TContinuation, 0, anyStream, e.P.EncodeBlock([]F{{Name: "x-flood", Value: "v"}}, nil), -1)...)
+				if rng.Intn(2) == 0 {
+					// a header block that never ends, in full-size fragments: past any bound a client can put on what it buffers
+					// (80-200 frames of 16 KiB, 1.3-3.2 MB)
+					frag := e.P.EncodeBlock([]F{{Name: "x-flood", Value: strings.Repeat("v", 16000)}}, []hpackref.Choice{{Rep: hpackref.RepWithout}})
+					for i := 0; i < 80+rng.Intn(120); i++ {
+						out = append(out, wire.Frame(nil, wire.TContinuation, 0, anyStream, frag, -1)...)
+					}
+					class += "/large"
+				} else {
+					for i := 0; i < 500+rng.Intn(3000); i++ {
+						out = append(out, wire.Frame(nil, wire.TContinuation, 0, anyStream, e.P.EncodeBlock([]F{{Name: "x-flood", Value: "v"}}, nil), -1)...)
+					}
 				}
 				e.P.Write(out)
 			case 11:
